@@ -117,6 +117,22 @@ Section QuietLoops.
       inversion H; subst. destruct (IH _ _ _ Hn1 E2) as [Hn2 Hp2].
       rewrite pulls_app, Hp1, Hp2. auto.
   Qed.
+  Lemma discard_quiet : forall b k it t r it', nogen it = true -> discard nx b k it = Some (t, r, it') ->
+    nogen it' = true /\ pulls t = [].
+  Proof.
+    intro b. induction k as [|k IH]; simpl; intros it t r it' Hn H.
+    - inversion H; subst; auto.
+    - unfold bind in H. destruct (nx it) as [[[t1 o1] it1]|] eqn:E; try discriminate.
+      destruct (Hq _ _ _ _ Hn E) as [Hn1 Hp1].
+      assert (G : forall t2 r2 it2, discard nx b k it1 = Some (t2, r2, it2) -> nogen it2 = true /\ pulls (t1 ++ t2) = []).
+      { intros t2 r2 it2 E2. destruct (IH _ _ _ _ Hn1 E2) as [Hn2 Hp2]. rewrite pulls_app, Hp1, Hp2. auto. }
+      destruct o1 as [[v|x y|e]|].
+      + destruct (discard nx b k it1) as [[[t2 r2] it2]|] eqn:E2; try discriminate. inversion H; subst. eapply G; eauto.
+      + destruct (discard nx b k it1) as [[[t2 r2] it2]|] eqn:E2; try discriminate. inversion H; subst. eapply G; eauto.
+      + inversion H; subst; auto.
+      + destruct b; [inversion H; subst; auto|].
+        destruct (discard nx false k it1) as [[[t2 r2] it2]|] eqn:E2; try discriminate. inversion H; subst. eapply G; eauto.
+  Qed.
 End QuietLoops.
 
 Ltac dstep H :=
@@ -170,14 +186,15 @@ Proof.
         destruct (IH _ _ _ _ Hk E0) as [Hn2 Hp2]. rewrite !pulls_app; simpl; rewrite ?Hp, ?Hp2; auto.
       * inv H. simpl. rewrite pulls_app, Hp. auto.
   - (* Skip *)
-    destruct (0 <? remaining).
-    + destruct (nth_ (step n Fwd) (N.to_nat remaining) it) as [[[t1 o1] i1]|] eqn:E; try discriminate. inv H.
-      destruct (nth_quiet _ IH _ _ _ _ _ Hn E). auto.
-    + dstep H. inv H. destruct (IH _ _ _ _ Hn E). auto.
+    destruct (discard (step n Fwd) true (N.to_nat remaining) it) as [[[t1 err] i1]|] eqn:E; try discriminate.
+    destruct (discard_quiet _ IH _ _ _ _ _ _ Hn E) as [Hn1 Hp1].
+    destruct err; [inv H; auto|].
+    dstep H. inv H. destruct (IH _ _ _ _ Hn1 E0) as [Hn2 Hp2]. simpl. rewrite pulls_app, Hp1, Hp2. auto.
   - (* Step *)
     dstep H. destruct (IH _ _ _ _ Hn E) as [Hn' Hp].
-    destruct (pull_ignore (step n Fwd) (N.to_nat (step_ - 1)) i') as [[t2 i2]|] eqn:E2; try discriminate. inv H.
-    destruct (pull_ignore_quiet _ IH _ _ _ _ Hn' E2) as [Hn2 Hp2]. simpl. rewrite pulls_app, Hp, Hp2. auto.
+    destruct (discard (step n Fwd) false (N.to_nat (step_ - 1)) i') as [[[t2 err] i2]|] eqn:E2; try discriminate.
+    destruct (discard_quiet _ IH _ _ _ _ _ _ Hn' E2) as [Hn2 Hp2].
+    destruct err; inv H; simpl; rewrite pulls_app, Hp, Hp2; auto.
   - (* Take *)
     destruct (0 <? remaining).
     + dstep H. inv H. destruct (IH _ _ _ _ Hn E). auto.
@@ -265,6 +282,24 @@ Section AccLoops.
       inv H. destruct (IH _ _ _ Hl1 E2) as [Hl2 A2].
       rewrite pulls_app. split; auto. eapply Acct_trans; eauto.
   Qed.
+  Lemma discard_acc : forall b k it t r it', lin it = true -> discard nx b k it = Some (t, r, it') ->
+    lin it' = true /\ Acct (rem it) (pulls t) (rem it').
+  Proof.
+    intro b. induction k as [|k IH]; simpl; intros it t r it' Hl H.
+    - inv H. split; auto. apply Acct_refl.
+    - unfold bind in H. destruct (nx it) as [[[t1 o1] it1]|] eqn:E; try discriminate.
+      destruct (Ha _ _ _ _ Hl E) as [Hl1 A1].
+      assert (G : forall t2 r2 it2, discard nx b k it1 = Some (t2, r2, it2) ->
+                  lin it2 = true /\ Acct (rem it) (pulls (t1 ++ t2)) (rem it2)).
+      { intros t2 r2 it2 E2. destruct (IH _ _ _ _ Hl1 E2) as [Hl2 A2]. rewrite pulls_app. split; auto.
+        eapply Acct_trans; eauto. }
+      destruct o1 as [[v|x y|e]|].
+      + destruct (discard nx b k it1) as [[[t2 r2] it2]|] eqn:E2; try discriminate. inv H. eapply G; eauto.
+      + destruct (discard nx b k it1) as [[[t2 r2] it2]|] eqn:E2; try discriminate. inv H. eapply G; eauto.
+      + inv H. auto.
+      + destruct b; [inv H; auto|].
+        destruct (discard nx false k it1) as [[[t2 r2] it2]|] eqn:E2; try discriminate. inv H. eapply G; eauto.
+  Qed.
 End AccLoops.
 
 Lemma Acct_call : forall a t b f o, Acct a (pulls t) b -> Acct a (pulls (t ++ fst (call f o))) b.
@@ -339,15 +374,16 @@ Proof.
         rewrite !pulls_app; simpl. eapply Acct_trans; eauto.
       * inv H. simpl. rewrite pulls_app; simpl; rewrite app_nil_r. auto.
   - (* Skip *)
-    destruct (0 <? remaining).
-    + destruct (nth_ (step n Fwd) (N.to_nat remaining) it) as [[[t1 o1] i1]|] eqn:E; try discriminate. inv H.
-      destruct (nth_acc _ IH _ _ _ _ _ Hl E). auto.
-    + dstep H. inv H. destruct (IH _ _ _ _ Hl E). auto.
+    destruct (discard (step n Fwd) true (N.to_nat remaining) it) as [[[t1 err] i1]|] eqn:E; try discriminate.
+    destruct (discard_acc _ IH _ _ _ _ _ _ Hl E) as [Hl1 A1].
+    destruct err; [inv H; auto|].
+    dstep H. inv H. destruct (IH _ _ _ _ Hl1 E0) as [Hl2 A2]. simpl. rewrite pulls_app. split; auto.
+    eapply Acct_trans; eauto.
   - (* Step *)
     dstep H. destruct (IH _ _ _ _ Hl E) as [Hl' A].
-    destruct (pull_ignore (step n Fwd) (N.to_nat (step_ - 1)) i') as [[t2 i2]|] eqn:E2; try discriminate. inv H.
-    destruct (pull_ignore_acc _ IH _ _ _ _ Hl' E2) as [Hl2 A2]. simpl. rewrite pulls_app.
-    split; auto. eapply Acct_trans; eauto.
+    destruct (discard (step n Fwd) false (N.to_nat (step_ - 1)) i') as [[[t2 err] i2]|] eqn:E2; try discriminate.
+    destruct (discard_acc _ IH _ _ _ _ _ _ Hl' E2) as [Hl2 A2].
+    destruct err; inv H; simpl; rewrite pulls_app; (split; auto; eapply Acct_trans; eauto).
   - (* Take *)
     destruct (0 <? remaining).
     + dstep H. inv H. destruct (IH _ _ _ _ Hl E). auto.
@@ -495,6 +531,24 @@ Section DemLoops.
       rewrite pulls_app, app_length.
       assert (k * demand1 it1 <= k * demand1 it)%nat by (apply Nat.mul_le_mono_l; auto). lia.
   Qed.
+  Lemma discard_dem : forall b k it t r it', lin it = true -> discard nx b k it = Some (t, r, it') ->
+    (length (pulls t) <= k * demand1 it)%nat /\ (demand1 it' <= demand1 it)%nat.
+  Proof.
+    intro b. induction k as [|k IH]; simpl; intros it t r it' Hl H.
+    - inv H. simpl. lia.
+    - unfold bind in H. destruct (nx it) as [[[t1 o1] it1]|] eqn:E; try discriminate.
+      destruct (Ha _ _ _ _ Hl E) as [Hl1 _]. destruct (Hd _ _ _ _ Hl E) as [D1 D2].
+      assert (G : forall t2 r2 it2, discard nx b k it1 = Some (t2, r2, it2) ->
+                  (length (pulls (t1 ++ t2)) <= demand1 it + k * demand1 it)%nat /\ (demand1 it2 <= demand1 it)%nat).
+      { intros t2 r2 it2 E2. destruct (IH _ _ _ _ Hl1 E2) as [D3 D4]. rewrite pulls_app, app_length.
+        assert (k * demand1 it1 <= k * demand1 it)%nat by (apply Nat.mul_le_mono_l; auto). lia. }
+      destruct o1 as [[v|x y|e]|].
+      + destruct (discard nx b k it1) as [[[t2 r2] it2]|] eqn:E2; try discriminate. inv H. eapply G; eauto.
+      + destruct (discard nx b k it1) as [[[t2 r2] it2]|] eqn:E2; try discriminate. inv H. eapply G; eauto.
+      + inv H. lia.
+      + destruct b; [inv H; lia|].
+        destruct (discard nx false k it1) as [[[t2 r2] it2]|] eqn:E2; try discriminate. inv H. eapply G; eauto.
+  Qed.
 End DemLoops.
 
 Lemma nogen_demand : forall it, nogen it = true -> demand1 it = 0%nat.
@@ -561,22 +615,19 @@ Proof.
   - (* Enumerate *)
     dstep H. inv H. destruct (IH _ _ _ _ Hl E). simpl. auto.
   - (* Skip *)
-    destruct (0 <? remaining).
-    + destruct (nth_ (step n Fwd) (N.to_nat remaining) it) as [[[t1 o1] i1]|] eqn:E; try discriminate. inv H.
-      destruct (nth_dem _ A IH _ _ _ _ _ Hl E) as [D1 D2]. simpl. split; [lia|].
-      assert (demand1 i1 <= (N.to_nat remaining + 1) * demand1 it)%nat; [|lia].
+    destruct (discard (step n Fwd) true (N.to_nat remaining) it) as [[[t1 err] i1]|] eqn:E; try discriminate.
+    destruct (discard_dem _ A IH _ _ _ _ _ _ Hl E) as [D1 D2]. destruct (discard_acc _ A _ _ _ _ _ _ Hl E) as [Hl1 _].
+    destruct err.
+    + inv H. simpl. rewrite Nat.mul_add_distr_r. lia.
+    + dstep H. inv H. destruct (IH _ _ _ _ Hl1 E0) as [D3 D4]. simpl. rewrite pulls_app, app_length.
       rewrite Nat.mul_add_distr_r. lia.
-    + dstep H. inv H. destruct (IH _ _ _ _ Hl E) as [D1 D2]. simpl. split.
-      * rewrite Nat.mul_add_distr_r. lia.
-      * assert (demand1 i' <= (N.to_nat remaining + 1) * demand1 it)%nat; [|lia].
-        rewrite Nat.mul_add_distr_r. lia.
   - (* Step *)
     dstep H. destruct (IH _ _ _ _ Hl E) as [D1 D2]. destruct (A _ _ _ _ Hl E) as [Hl' _].
-    destruct (pull_ignore (step n Fwd) (N.to_nat (step_ - 1)) i') as [[t2 i2]|] eqn:E2; try discriminate. inv H.
-    destruct (pull_ignore_dem _ A IH _ _ _ _ Hl' E2) as [D3 D4]. simpl. rewrite pulls_app, app_length.
+    destruct (discard (step n Fwd) false (N.to_nat (step_ - 1)) i') as [[[t2 err] i2]|] eqn:E2; try discriminate.
+    destruct (discard_dem _ A IH _ _ _ _ _ _ Hl' E2) as [D3 D4].
     assert (N.to_nat (step_ - 1) * demand1 i' <= N.to_nat (step_ - 1) * demand1 it)%nat by (apply Nat.mul_le_mono_l; auto).
     assert (N.to_nat (step_ - 1) * demand1 i2 <= N.to_nat (step_ - 1) * demand1 it)%nat by (apply Nat.mul_le_mono_l; lia).
-    lia.
+    destruct err; inv H; simpl; rewrite pulls_app, app_length; lia.
   - (* Take *)
     destruct (0 <? remaining).
     + dstep H. inv H. destruct (IH _ _ _ _ Hl E). simpl. auto.
